@@ -74,12 +74,15 @@ type Description struct {
 
 // Replay is the replay file.
 type Replay struct {
-	Property string    `json:"property"`
-	Engine   string    `json:"engine"`
-	Tier     string    `json:"tier"`
-	Seed     int64     `json:"seed"`
-	Run      int       `json:"run"`
-	Scenario Scenario  `json:"scenario"`
+	Property string   `json:"property"`
+	Engine   string   `json:"engine"`
+	Tier     string   `json:"tier"`
+	Seed     int64    `json:"seed"`
+	Run      int      `json:"run"`
+	Scenario Scenario `json:"scenario"`
+	// Regen: the run did not finish (the process died), so there is no recorded
+	// tape; it is regenerated from (seed, run), which is what the worker did.
+	Regen    bool      `json:"regen,omitempty"`
 	Tape     []uint32  `json:"tape"`
 	Class    string    `json:"class"`
 	Sig      string    `json:"sig"`
@@ -251,7 +254,15 @@ func RunWorker(t *testing.T, c WorkerCfg) {
 		}
 	}
 
+	cur, _ := os.OpenFile(c.OutPath+".cur", os.O_CREATE|os.O_WRONLY|os.O_TRUNC, 0o644)
+	defer cur.Close()
 	for i := c.Worker; i < total; i += c.Workers {
+		if cur != nil {
+			// one pwrite per run: if the code under test kills the process (stack
+			// overflow, concurrent map writes, a panic on a goroutine of its own),
+			// the triage step knows which run it was
+			_, _ = cur.WriteAt([]byte(fmt.Sprintf("%-31d\n", i)), 0)
+		}
 		if c.MaxWall > 0 && time.Since(start) > c.MaxWall {
 			out.Infra = append(out.Infra, fmt.Sprintf("wall budget %v exhausted after %d of this worker's runs", c.MaxWall, out.Runs+out.SweepRuns))
 			break
@@ -395,7 +406,11 @@ func RunReplay(t *testing.T, p Property, path string) (bool, *Result, *Replay, e
 	if err := json.Unmarshal(b, &rep); err != nil {
 		return false, nil, nil, err
 	}
-	res := p.Run(t, ReplayTape(rep.Tape), rep.Scenario)
+	tape := ReplayTape(rep.Tape)
+	if rep.Regen {
+		tape = NewTape(RunSeed(rep.Seed, rep.Run))
+	}
+	res := p.Run(t, tape, rep.Scenario)
 	return sameViolation(res, Violation{Class: rep.Class, Sig: rep.Sig}) != nil, res, &rep, nil
 }
 
@@ -416,4 +431,97 @@ func Catch(f func()) (panicMsg string) {
 	}()
 	f()
 	return ""
+}
+
+// Triage inspects the log of a worker process that died.  If the fatal error
+// (or unrecovered panic) was raised with the innermost non-stdlib frame of the
+// crashing goroutine inside the code under test, it is a violation of the
+// property being exercised: a replay file is written and a WorkerOut with that
+// violation replaces the missing worker output.  Anything else is
+// infrastructure trouble and is left alone (returns false).
+func Triage(c WorkerCfg, logPath string) bool {
+	logb, err := os.ReadFile(logPath)
+	if err != nil {
+		return false
+	}
+	curb, err := os.ReadFile(c.OutPath + ".cur")
+	if err != nil {
+		return false
+	}
+	var run int
+	if _, err := fmt.Sscanf(strings.TrimSpace(string(curb)), "%d", &run); err != nil {
+		return false
+	}
+	what, fn := ParseCrash(string(logb), "github.com/go-openapi/runtime")
+	if fn == "" {
+		return false
+	}
+	sweep := c.Prop.Sweep(c.Tier)
+	var sc Scenario
+	if run < len(sweep) {
+		sc = sweep[run]
+	}
+	class := c.Prop.ID() + "/fatal-crash"
+	rep := &Replay{Property: c.Prop.ID(), Engine: c.Prop.Engine(), Tier: c.Tier, Seed: c.Seed, Run: run, Scenario: sc, Regen: true,
+		Class: class, Sig: fn, Msg: fmt.Sprintf("the process died during this run: %s; crashing goroutine's innermost frame in the code under test: %s", what, fn)}
+	path := filepath.Join(c.ReplayDir, fmt.Sprintf("%s-fatal-crash-seed%d-run%d.json", c.Prop.ID(), c.Seed, run))
+	b, _ := json.MarshalIndent(rep, "", " ")
+	if err := os.WriteFile(path, b, 0o644); err != nil {
+		return false
+	}
+	out := &WorkerOut{Property: c.Prop.ID(), Tier: c.Tier, Seed: c.Seed, Worker: c.Worker, Runs: 0,
+		Faults: map[string]int{}, Probes: map[string]int{}, Known: map[string]int{}, KnownWhat: map[string]string{},
+		Violations: []string{path}, ViolSummary: []string{fmt.Sprintf("%s [%s] %s", class, fn, rep.Msg)}, ViolKeys: []string{class + "|" + fn}}
+	if k := c.Findings.Known(c.Prop.ID(), Violation{Class: class, Sig: fn}); k != nil {
+		out.Violations, out.ViolSummary, out.ViolKeys = nil, nil, nil
+		out.Known[k.Class+"|"+k.Sig] = 1
+		out.KnownWhat[k.Class+"|"+k.Sig] = k.What
+	}
+	ob, _ := json.Marshal(out)
+	return os.WriteFile(c.OutPath, ob, 0o644) == nil
+}
+
+// ParseCrash finds the Go runtime's fatal error / panic banner in a process
+// log and returns it together with the innermost frame of the crashing
+// goroutine that is not standard library, provided that frame lies under
+// prefix ("" otherwise).
+func ParseCrash(log, prefix string) (what, fn string) {
+	lines := strings.Split(log, "\n")
+	start := -1
+	for i, l := range lines {
+		if strings.HasPrefix(l, "fatal error: ") || strings.HasPrefix(l, "panic: ") || strings.HasPrefix(l, "runtime: goroutine stack exceeds") {
+			if start < 0 {
+				start = i
+				what = l
+			}
+		}
+	}
+	if start < 0 {
+		return "", ""
+	}
+	// the first goroutine block after the banner is the crashing one
+	for i := start; i < len(lines); i++ {
+		if !strings.HasPrefix(lines[i], "goroutine ") || !strings.Contains(lines[i], "[running") {
+			continue
+		}
+		for j := i + 1; j < len(lines) && lines[j] != ""; j++ {
+			l := lines[j]
+			if strings.HasPrefix(l, "\t") || strings.HasPrefix(l, " ") || strings.HasPrefix(l, "...") {
+				continue
+			}
+			f := l
+			if k := strings.LastIndex(f, "("); k > 0 {
+				f = f[:k]
+			}
+			if isStdlibFunc(f) {
+				continue
+			}
+			if strings.HasPrefix(f, prefix) {
+				return what, strings.TrimPrefix(strings.TrimPrefix(f, prefix), "/")
+			}
+			return what, ""
+		}
+		return what, ""
+	}
+	return what, ""
 }
